@@ -13,7 +13,7 @@ import translate_cotree
 
 COQ_FILES = ["gen/Facts_COTree.v", "Rows/COTree.v", "Rows/SparseTree.v", "Rows/COTreeSpec.v",
              "Rows/Abs.v", "Rows/Dense.v", "Rows/Sparse.v", "Rows/Expr.v", "Rows/RowsFacts.v"]
-OPTIONAL_COQ = ["Rows/COTreeBase.v", "Rows/COTreeSearch.v", "Rows/COTreeStatic.v", "Rows/COTreeHint.v",
+OPTIONAL_COQ = ["Rows/COTreeBase.v", "Rows/COTreeInorder.v", "Rows/COTreeSearch.v", "Rows/COTreeStatic.v", "Rows/COTreeHint.v",
                 "Rows/COTreeDens.v", "Rows/COTreeIter.v", "Rows/COTreeUpdate.v", "Rows/COTreeEraseLb.v",
                 "Rows/DenseProofs.v", "Rows/SparseProofs.v", "Rows/ExprProofs.v", "Rows/COTreeMain.v",
                 "Rows/COTreeFull.v", "Rows/C16Final.v"]
